@@ -208,6 +208,25 @@ def run_dynamic(body):
     return {"R": res["R"].get("test_a.py"), "after": res["files"]["test_a.py"].decode(), "session_exc": res["session_exc"]}
 
 
+TWIN_SRC = """import os
+from inline_snapshot import snapshot
+
+
+def test_a():
+    v = int(open(os.path.join(os.path.dirname(__file__), "data.txt")).read())
+    assert v == snapshot()
+    for x in (v, v + 1):
+        assert x <= snapshot()
+"""
+
+
+def run_twins(flags):
+    """two textually identical test modules in different directories: two call sites each, which must stay independent"""
+    files = {"a/test_same.py": TWIN_SRC, "a/data.txt": "1", "b/test_same.py": TWIN_SRC, "b/data.txt": "20"}
+    res = driver.run_inproc(files, flags)
+    return {"a": res["files"]["a/test_same.py"].decode(), "b": res["files"]["b/test_same.py"].decode(), "session_exc": res["session_exc"], "tests": res["tests"]}
+
+
 def run_reeval(case):
     src = REEVAL.format(**case)
     res = driver.run_inproc({"test_a.py": src}, ())
@@ -267,6 +286,11 @@ def run(ctx: Ctx):
         elif any(r[0] == "exc" for r in R):
             ctx.report(f"unchanged argument rejected: {R}", {"kind": "reeval", "case": c})
     ctx.coverage["oracle"]["reeval_cases"] = len(rc)
+    tw = run_twins(("create",))
+    ctx.count(("twins",), True)
+    if tw["session_exc"] or "snapshot(1)" not in tw["a"] or "snapshot(2)" not in tw["a"] or "snapshot(20)" not in tw["b"] or "snapshot(21)" not in tw["b"]:
+        ctx.report(f"two identical test modules in different directories are not tracked independently: session {tw['session_exc']}; a: {tw['a'][-120:]!r} b: {tw['b'][-120:]!r}",
+                   {"kind": "twins"})
     for body, o in zip(DYNAMIC, pmap(run_dynamic, DYNAMIC)):
         ctx.count(("dynamic", body), True)
         if o["session_exc"] or not o["R"] or any(r is not True for r in o["R"]):
@@ -276,6 +300,10 @@ def run(ctx: Ctx):
 
 def replay(ctx: Ctx, data):
     case = data["case"]
+    if case.get("kind") == "twins":
+        tw = run_twins(("create",))
+        print(tw)
+        return not tw["session_exc"] and "snapshot(1)" in tw["a"] and "snapshot(2)" in tw["a"] and "snapshot(20)" in tw["b"] and "snapshot(21)" in tw["b"]
     if case.get("kind") == "dynamic":
         o = run_dynamic(case["body"])
         print(o)
